@@ -162,6 +162,9 @@ def generate(rng, tier, idx):
             ops.append({'op': 'app_query', 'm': m})
         elif r < 0.93 and kinds[m] == 'biv':
             ops.append({'op': 'sample_badtau', 'm': m, 'n': 2})
+        elif r < 0.96:
+            ops.append({'op': 'pair_fresh', 'm': m, 'seed': rng.randrange(2**31),
+                        'n': rng.choice([1, 3]), 'k': rng.randint(1, 50)})
         else:
             ops.append({'op': 'dataset', 'name': rng.choice(DATASETS),
                         'size': rng.choice([1, 2, 7, 50]), 'seed': rng.randrange(10**6)})
@@ -571,7 +574,47 @@ def execute(run):
             ctx.stats['ops'] += 1
         elif kind == 'dataset':
             _dataset(w, op)
+        elif kind == 'pair_fresh':
+            _pair_fresh(w, op)
     return ctx.result()
+
+
+def _pair_fresh(w, op):
+    """Two models built *separately* from the same specification (constructor + fit, not a
+    copy) and given the same int seed must produce identical streams, whatever the
+    application does to the global generator in between."""
+    ctx = w.ctx
+    spec = dict(spec_of(w, op['m']))
+    spec['seed'] = {'kind': 'int', 'v': op['seed']}
+    data = zoo.gen_data(spec['data'])
+    pair = []
+    for _ in range(2):
+        with sterile(spec['fit_state']):
+            m = zoo.build_model(spec, {})
+            out = outcome(zoo.fit_model, m, spec, data)
+        pair.append((m, out))
+    if pair[0][1][0] != 'ok' or pair[1][1][0] != 'ok':
+        return
+    a, b = pair[0][0], pair[1][0]
+    subject = _subject(a)
+    g0 = np.random.get_state()
+    outs = []
+    for call in range(2):
+        oa = outcome(a.sample, op['n'])
+        np.random.random(op['k'])                       # foreign activity between the twins
+        ob = outcome(b.sample, op['n'])
+        outs.append((oa, ob))
+        if outcome_class(oa) != outcome_class(ob) or (oa[0] == 'ok' and not same(oa[1], ob[1])):
+            ctx.violate('I2_equal_models_equal_seed_equal_stream', subject,
+                        'call %d: two separately built equal models with seed %d disagree'
+                        % (call + 1, op['seed']), cls=w.meta[op['m']]['cls'], call=call + 1)
+            break
+    np.random.set_state(g0)
+    ctx.stats['ops'] += 1
+    ctx.stats['pair_fresh_checks'] += 1
+    ctx.nontrivial = True
+    ctx.event('pair_fresh', op['m'], [outcome_class(o[0]) for o in outs])
+    _abstract(w, op['m'], 'pair_fresh', outcome_class(outs[0][0]))
 
 
 def spec_of(w, mid):
